@@ -57,6 +57,9 @@ type vpC15Conn struct {
 	Split     bool // pipe: followers are sent only after the gated handler started (else: one write)
 	LateKind  string
 	LateAfter bool // late/wake: started after (else just before) the Shutdown goroutine
+	// the connection is not accepted from a listener: it is handed to the same Server through ServeConn
+	// (Shutdown waits for the server's open connections whichever way they came in)
+	ViaServeConn bool
 }
 
 type vpC15Scenario struct {
@@ -78,6 +81,9 @@ func (sc vpC15Scenario) String() string {
 		sc.IdleTimeout, sc.ReadTimeout, sc.WithCtx, sc.GateFirst, sc.Pad, sc.PriorCycles)
 	for j, c := range sc.Conns {
 		fmt.Fprintf(&b, " | c%d ln%d %s pre=%d pretmo=%v", j, c.Ln, c.Phase, c.Pre, c.PreTmo)
+		if c.ViaServeConn {
+			b.WriteString(" via=ServeConn")
+		}
 		switch c.Phase {
 		case "gate":
 			fmt.Fprintf(&b, " rel=%d d=%d", c.Release, c.DelayMs)
@@ -188,6 +194,9 @@ func vpC15Gen(t *rapid.T) vpC15Scenario {
 		case "fresh":
 			fresh = true
 		}
+		if c.Phase == "gate" || c.Phase == "pipe" || c.Phase == "done" {
+			c.ViaServeConn = rapid.IntRange(0, 4).Draw(t, "viaServeConn") == 0
+		}
 		sc.Conns = append(sc.Conns, c)
 	}
 	return sc
@@ -258,6 +267,7 @@ type vpC15Run struct {
 	fbOnce   sync.Once
 	reqs     [][]vpC15Req
 	lateWG   sync.WaitGroup
+	scWG     sync.WaitGroup // ServeConn calls
 	clients  []*vpC15Client
 	dialErr  []error
 
@@ -317,7 +327,19 @@ func (r *vpC15Run) dial(ln int) (*vpC15Client, error) { return r.nw.dial(ln) }
 // set the stage (nothing about Shutdown has happened yet).
 func (r *vpC15Run) setupConn(j int) string {
 	spec := r.sc.Conns[j]
-	cl, err := r.dial(spec.Ln)
+	var cl *vpC15Client
+	var err error
+	if spec.ViaServeConn {
+		w := vpNewWire(nil, nil, false)
+		cl = vpC15WireClient(w)
+		r.scWG.Add(1)
+		go func() {
+			defer r.scWG.Done()
+			r.s.ServeConn(w) //nolint:errcheck
+		}()
+	} else {
+		cl, err = r.dial(spec.Ln)
+	}
 	if err != nil {
 		return fmt.Sprintf("c%d: dial: %v", j, err)
 	}
